@@ -238,14 +238,28 @@ func VarargValues(arg ssa.Value) []ssa.Value {
 	if !ok {
 		return []ssa.Value{arg}
 	}
-	var out []ssa.Value
+	byIdx := map[int64]ssa.Value{}
+	var max int64 = -1
 	for _, r := range *al.Referrers() {
 		if ia, ok := r.(*ssa.IndexAddr); ok {
+			k, isK := ConstInt(ia.Index)
+			if !isK {
+				continue
+			}
 			for _, rr := range *ia.Referrers() {
 				if st, ok := rr.(*ssa.Store); ok && st.Addr == ia {
-					out = append(out, st.Val)
+					byIdx[k] = st.Val
+					if k > max {
+						max = k
+					}
 				}
 			}
+		}
+	}
+	var out []ssa.Value
+	for i := int64(0); i <= max; i++ {
+		if v, ok := byIdx[i]; ok {
+			out = append(out, v)
 		}
 	}
 	return out
